@@ -23,6 +23,8 @@ ALLQ = ["sp_keeps_writes", "uniq_tombstone_first", "lazy_usnap", "uidx_no_own_re
         "pk_get_sees_own_deleted", "upd_own_inserted_u_fails", "ddl_first_pk_only"]
 ALLKINDS = ["begin", "commit", "rollback", "close", "sp", "rbto", "rel", "insA", "insAbad", "insE", "insN", "ups", "updU", "updV",
             "updAllV", "del", "delAll", "selAll", "selPk", "selU", "crIdx"]
+UNIQ_QUIRKS = {"uniq_tombstone_first", "lazy_usnap", "uidx_no_own_removal", "ddl_first_pk_only"}
+JOPTS = ["-XX:ParallelGCThreads=2"]      # many small JVMs run side by side; keep their GC from fighting for the cores
 INVS = ["ConstraintsHold", "OwnWritesVisible", "NoDirtyReads", "IndexViewConsistent", "NoQuirkFired"]
 PROPS = ["StatementsSeeOwnWrites", "NoDirtyReadsAct", "FailedStatementNoEffect", "AllOrNothing", "CountsMatchApplied", "RollbackToUndoesExactlySuffix"]
 
@@ -70,7 +72,7 @@ def cfg(c, spec="Spec", invs=(), props=(), view=True, post=None):
 
 # ------------------------------------------------------------------ TLC runs
 def mc_design(name, c, workers, timeout=900):
-    res = vlib.run_tlc("SQLTx", "mc.cfg", workers=workers, timeout=timeout, files=[("mc.cfg", cfg(c, invs=INVS, props=PROPS))], tag="sqltx-mc")
+    res = vlib.run_tlc("SQLTx", "mc.cfg", workers=workers, timeout=timeout, files=[("mc.cfg", cfg(c, invs=INVS, props=PROPS))], tag="sqltx-mc", javaopts=JOPTS)
     vlib.tlc_must_pass(res, "SQLTx design model [%s]" % name)
     return res
 
@@ -92,7 +94,7 @@ def trace_states(out):
 def mc_code(name, c, expect):
     """Exhaustive run of the code as transcribed; returns (res, statements of the counterexample)."""
     only = expect == {"ConstraintsHold"}
-    res = vlib.run_tlc("SQLTx", "mc.cfg", workers=1, timeout=600, tag="sqltx-code",
+    res = vlib.run_tlc("SQLTx", "mc.cfg", workers=1, timeout=600, tag="sqltx-code", javaopts=JOPTS,
                        files=[("mc.cfg", cfg(c, invs=["ConstraintsHold"] if only else INVS[:-1], props=[] if only else PROPS))])
     if res.error:
         raise MachineryFault("SQLTx code model [%s]: %s" % (name, res.error))
@@ -129,7 +131,7 @@ def fix_steps(steps):
 def simulate(c, num, seed, timeout=600):
     c = dict(c, EmitDepth=1)
     depth = c["NS"] * c["MaxStmts"] + 3
-    res = vlib.run_tlc("SQLTx", "sim.cfg", workers=1, timeout=timeout, extra=["-simulate", "num=%d" % num, "-depth", str(depth), "-seed", str(seed)],
+    res = vlib.run_tlc("SQLTx", "sim.cfg", workers=1, timeout=timeout, javaopts=JOPTS, extra=["-simulate", "num=%d" % num, "-depth", str(depth), "-seed", str(seed)],
                        files=[("sim.cfg", cfg(c, spec="RSpec", invs=["ConstraintsHold", "NoQuirkFired", "Emit"], view=False))], tag="sqltx-sim")
     if res.error or res.violation:
         raise MachineryFault("SQLTx simulation: %s %s\n%s" % (res.error, res.violation, res.out[-2000:]))
@@ -158,7 +160,7 @@ def trace_run(scripts, c, check_real=False, timeout=900, tag="sqltx-trace"):
                 e["rows"] = st["rows"]
                 e["cmp"] = st.get("cmp", 0)
             else:
-                e.update({"s": st["s"], "k": st["k"], "id": st["id"], "u": st["u"], "v": st["v"], "chk": st.get("chk", 0), "ct": st.get("ct", 1),
+                e.update({"s": st["s"], "k": st["k"], "id": st["id"], "u": st["u"], "v": st["v"], "chk": st.get("chk", 0), "ct": st.get("ct", 1), "cc": st.get("cc", 1),
                           "out": st.get("out", ""), "res": st.get("res", []), "cnt": st.get("cnt", 0), "pk": st.get("pk", 0),
                           "tbl": st.get("tbl") or []})
             lines.append(json.dumps(e))
@@ -166,7 +168,7 @@ def trace_run(scripts, c, check_real=False, timeout=900, tag="sqltx-trace"):
     ns = max([1] + [st["s"] for _, steps in scripts for st in steps if "s" in st])
     c = dict(c, NS=ns, TxSessions=set(range(1, ns + 1)), MaxStmts=100000, Quirks=set(), EmitDepth=1, Kinds=set(ALLKINDS))
     text = cfg(c, spec="TraceSpec", invs=(["RealConstraintsHold"] if check_real else []), view=False, post="TraceAccepted")
-    res = vlib.run_tlc("TraceSQLTx", "trace.cfg", workers=1, timeout=timeout, files=[("trace.cfg", text), ("trace.ndjson", "\n".join(lines) + "\n")], tag=tag)
+    res = vlib.run_tlc("TraceSQLTx", "trace.cfg", workers=1, timeout=timeout, javaopts=JOPTS, files=[("trace.cfg", text), ("trace.ndjson", "\n".join(lines) + "\n")], tag=tag)
     if res.error:
         raise MachineryFault("TraceSQLTx: %s" % res.error)
     got = {}
@@ -205,6 +207,7 @@ def observed_script(dev):
     for o in dev["observed"]:
         steps.append({"s": o["s"], "k": o["k"], "id": o["id"], "u": o["u"], "v": o["v"], "chk": 1, "out": o["out"],
                       "res": rows_back(o["res"] or []), "cnt": o["cnt"], "pk": o["pk"], "ct": 0 if o["tbl"] is None else 1,
+                      "cc": 0 if dev.get("wire") else 1,
                       "tbl": rows_back(o["tbl"] or [])})
     return steps
 
@@ -251,6 +254,8 @@ def report(chk, devs, who, source):
             sig = "sqltx:%s:%s" % (q if q else "unexplained:" + d["kind"], d["class"])
             if d["class"] not in rel:
                 oos[sig] = oos.get(sig, 0) + 1
+                if oos[sig] == 1:
+                    chk.cov.setdefault("out_of_scope_samples", {})[sig] = d["text"][:1500]
                 continue
             text = ("%s (%s, explained by the transcribed quirk(s) %s)" % (d["text"], source, "+".join(qs))) if q else \
                    ("%s (%s, not explained by any transcribed quirk)" % (d["text"], source))
@@ -279,8 +284,8 @@ def profile(pid, tier):
             ("ddl_first_pk_only", consts(NS=1, MaxStmts=5, VVals={"p"}, TxSessions=set(), InitUIdx=False, Kinds={"insA", "del", "crIdx"}, Quirks={"ddl_first_pk_only"}), {"ConstraintsHold"}),
         ]
         sim = [
-            (consts(NS=3, MaxStmts=5, TxSessions={1, 2}, Kinds=set(ALLKINDS) - {"crIdx", "sp", "rbto", "rel"}), 1200 if thorough else 240),
-            (consts(NS=2, MaxStmts=6, InitUIdx=False, TxSessions={1}, Kinds={"begin", "commit", "insA", "insE", "ups", "updU", "del", "delAll", "crIdx", "selAll"}), 400 if thorough else 80),
+            (consts(NS=3, MaxStmts=5, TxSessions={1, 2}, Kinds=set(ALLKINDS) - {"crIdx", "sp", "rbto", "rel"}), 1200 if thorough else 150),
+            (consts(NS=2, MaxStmts=6, InitUIdx=False, TxSessions={1}, Kinds={"begin", "commit", "insA", "insE", "ups", "updU", "del", "delAll", "crIdx", "selAll"}), 400 if thorough else 50),
         ]
         if thorough:
             sim += [(consts(NS=2, MaxStmts=8, Kinds=set(ALLKINDS) - {"crIdx"}), 800)]
@@ -308,8 +313,8 @@ def profile(pid, tier):
             ("upd_own_inserted_u_fails", consts(NS=1, MaxStmts=3, VVals={"p"}, ExplIds={1}, TxSessions={1}, Kinds={"begin", "insA", "updU"}, Quirks={"upd_own_inserted_u_fails"}), None),
         ]
     sim = [
-        (consts(NS=2, MaxStmts=8, TxSessions={1, 2}), 1200 if thorough else 240),
-        (consts(NS=3, MaxStmts=4, TxSessions={1, 2}), 600 if thorough else 100),
+        (consts(NS=2, MaxStmts=8, TxSessions={1, 2}), 1200 if thorough else 150),
+        (consts(NS=3, MaxStmts=4, TxSessions={1, 2}), 600 if thorough else 60),
     ]
     if thorough:
         sim += [(consts(NS=1, MaxStmts=10, TxSessions={1}, Kinds={"begin", "commit", "rollback", "sp", "rbto", "rel", "insA", "ups", "updU", "updV", "del", "selAll", "selU"}), 600)]
@@ -376,10 +381,26 @@ def run_sqltx(chk, args):
         report(chk, devs, who, "replay of TLC behaviours")
     chk.cov["behaviours_replayed"] = sum(len(b) for b in behaviours.values())
     chk.cov["steps_replayed"] = chk.cov["evaluations"]
+    # 4b. C13: the same behaviours through the PostgreSQL wire front-end of an in-process server
+    if chk.pid == "C13":
+        t0 = time.time()
+        bin13 = vlib.go_build("c13")
+        dd = os.path.join(wd, "pgwire")
+        limit = 150 if chk.tier == "thorough" else 24
+        out, _ = vlib.run_harness(bin13, ["-replay", os.path.join(wd, "beh_1.json"), "-dir", dd, "-limit", str(limit)], timeout=1500)
+        r = json.loads(out[out.index('{"evaluations"'):])
+        devs = (r.get("extra") or {}).pop("deviations", None) or []
+        nb = r.get("distinct_nontrivial", 0)
+        r["distinct_nontrivial"] = 0
+        vlib.absorb(chk, r)
+        who = attribute(devs, dict(base, InitUIdx=True))
+        report(chk, devs, who, "replay through the PostgreSQL wire front-end")
+        chk.cov["pgwire"] = {"behaviours": nb, "steps": r.get("evaluations", 0), "deviations": len(devs)}
+        vlib.log("[pgwire] %d behaviours %.1fs, %d deviations" % (nb, time.time() - t0, len(devs)))
     # 6. trace validation
     t0 = time.time()
     thorough = chk.tier == "thorough"
-    trace_validation(chk, binp, wd, runs=40 if thorough else 12, workers=3, units=12 if thorough else 8)
+    trace_validation(chk, binp, wd, runs=40 if thorough else 10, workers=3, units=12 if thorough else 8)
     vlib.log("[tv] %.1fs" % (time.time() - t0))
     return binp, wd
 
@@ -491,10 +512,39 @@ def trace_validation(chk, binp, wd, runs, workers, units):
                     % (m["run"], workers, i, ev["commit"], ev["k"], ev["id"], ev["u"], ev["v"], ev["w"], ev["out"], ev["res"], ev["cnt"], ev["pk"],
                        model.get("out"), model.get("res"), model.get("cnt"), model.get("pk"), field))
             upto = scripts[b][:i + 1]
-        devs.append({"kind": kind, "class": "constraint-breach" if (m["breach"] or field == "breach") else "serial-order", "text": text, "step": i,
-                     "origin": "free run %d seed %d" % (m["run"], chk.seed), "sql": None, "expected": None,
-                     "observed": [dict(x) for x in upto][-12:]})
-        dscripts.append(upto)
+        if field != "breach":
+            devs.append({"kind": kind, "class": "serial-order", "text": text, "step": i,
+                         "origin": "free run %d seed %d" % (m["run"], chk.seed), "sql": None, "expected": None,
+                         "observed": [dict(x) for x in upto][-12:]})
+            dscripts.append(upto)
+    # a scanned real table that violates a declared constraint is judged by itself (C12), wherever the first
+    # serial-order mismatch of its run is: does the full transcription reproduce the whole run incl. its final table?
+    bruns = [b for b, m in enumerate(meta) if m["breach"]]
+    if bruns:
+        full = [[x for x in scripts[b] if x.get("ev") != "scan"] + [dict(scripts[b][-1], cmp=2)] for b in bruns]
+        got2, res2 = trace_run([(set(ALLQ), sc) for sc in full], c, tag="sqltx-tvb")
+        if res2.violation or res2.postcondition_failed:
+            raise MachineryFault("TraceSQLTx (breach attribution): %s\n%s" % (res2.violation, res2.out[-1500:]))
+        bdevs, bwho = [], []
+        for j, b in enumerate(bruns):
+            m, g = meta[b], got2.get(j)
+            bad = [rows for rows in [x["rows"] for x in scripts[b] if x.get("ev") == "scan"] if real_breach([[str(c0) for c0 in r] for r in rows])]
+            text = "free run %d (%d sessions): a full scan of the real table shows %s, which violates a declared constraint" % (m["run"], workers, bad[0] if bad else m["final"])
+            who_b = []
+            if g and not g["dead"] and not g["mism"]:
+                # the transcription follows the whole run: blame the quirks of the first step after which the model's table has a duplicate
+                acc = set()
+                for st in g["steps"]:
+                    acc |= set(st.get("tags") or [])
+                    us = [r[1] for r in st["tbl"]]
+                    if len(us) != len(set(us)):
+                        who_b = sorted(acc & UNIQ_QUIRKS) or sorted(acc)      # only these decisions admit a duplicate
+                        break
+                who_b = who_b or sorted(g["fired"]) or ["code-model"]
+            bdevs.append({"kind": "scan", "class": "constraint-breach", "text": text, "step": len(full[j]) - 1, "origin": "free run %d seed %d" % (m["run"], chk.seed),
+                          "sql": None, "expected": None, "observed": [dict(x) for x in full[j]][-14:]})
+            bwho.append(who_b)
+        report(chk, bdevs, bwho, "trace validation of free-running sessions")
     who = attribute(devs, c, scripts=dscripts)
     report(chk, devs, who, "trace validation of free-running sessions")
     chk.cov["traces_validated_against_impl"] += validated
